@@ -143,6 +143,9 @@ namespace ip {
 		m_bound_to = bind_ip;
 		m_user_bound_to = bind_ip;
 		m_channel = c;
+		// the accepted side honours the path MTU to its peer too
+		m_mss = m_io_service.get_path_mtu(bind_ip.address(), c->ep[0].address());
+		m_cwnd = m_mss * 2;
 		assert(m_forwarder);
 		c->hops[1].replace_last(m_forwarder);
 	}
